@@ -265,6 +265,13 @@ private theorem good_processDeferred (st : St) (h : TypedStore st.opts) (hn : Ke
     · exact this
     · exact this
 
+private theorem good_merge (st : St) (kvs : List (Name × Val)) (h : TypedStore st.opts) (hn : KeysNodup st.opts) :
+    Good (merge st kvs) := by
+  unfold merge
+  split
+  · exact ⟨h, hn, by simp⟩
+  · exact good_update st _ h hn
+
 private theorem good_step (st : St) (op : Op) (h : TypedStore st.opts) (hn : KeysNodup st.opts) : Good (step st op) := by
   cases op with
   | addOption n ty d => exact good_addOption st n ty d h hn
@@ -275,6 +282,7 @@ private theorem good_step (st : St) (op : Op) (h : TypedStore st.opts) (hn : Key
   | set specs defer => exact good_setSpecs st specs defer h hn
   | processDeferred => exact good_processDeferred st h hn
   | reset => exact good_reset st h hn
+  | merge kvs => exact good_merge st kvs h hn
 
 private theorem good_runFrom (ops : List Op) : ∀ st : St, TypedStore st.opts → KeysNodup st.opts →
     TypedStore (runFrom st ops).1.opts ∧ KeysNodup (runFrom st ops).1.opts ∧ ∀ ob ∈ (runFrom st ops).2, TypedStore ob.seen := by
@@ -311,7 +319,7 @@ example : (addOption St.empty 0 .seqStr (.seq [.s [], .i 1])).out = .typeError :
 
 /-- the operations that go through `update_known` -/
 def isUpdateOp : Op → Bool
-  | .update _ | .updateKnown _ | .updateDefer _ | .set _ _ | .processDeferred => true
+  | .update _ | .updateKnown _ | .updateDefer _ | .set _ _ | .processDeferred | .merge _ => true
   | _ => false
 
 private theorem updateKnown_rejected (st : St) (kw : List (Name × Val)) (h : (updateKnown st kw).out ≠ .ok) :
@@ -394,6 +402,11 @@ theorem rejected_update_restores_everything (st : St) (op : Op) (hop : isUpdateO
   | addOption n ty d => simp [isUpdateOp] at hop
   | subscribe l => simp [isUpdateOp] at hop
   | reset => simp [isUpdateOp] at hop
+  | merge kvs =>
+    simp only [step, merge] at h ⊢
+    cases hm : mergeVals st.opts kvs with
+    | error e => rfl
+    | ok toset => simp only [hm] at h ⊢; rw [update_rejected _ _ h]
   | update kw => simp only [step] at h ⊢; rw [update_rejected st kw h]
   | updateKnown kw =>
     simp only [step] at h ⊢
@@ -841,6 +854,11 @@ theorem nested_model_agrees_with_flat (st : St) (op : Op) (h : Passive st.listen
       · rfl
   | processDeferred => simp only [stepN, step, processDeferredN, processDeferred, hu st rfl]
   | reset => simp only [stepN, step, resetN, reset, notifyW_passive _ _ _ _ h]
+  | merge kvs =>
+    simp only [stepN, step, mergeN, merge]
+    split
+    · rfl
+    · exact hu st rfl _
 
 /-- nobody reacts to the rollback notification `u` on store `s` by issuing an update -/
 def quiet (u : List Name) (s : Store) (ls : List Listener) : Bool :=
@@ -1040,6 +1058,11 @@ private theorem good_stepN (st : St) (op : Op) (h : TypedStore st.opts) (hn : Ke
     have hk : KeysNodup (st.opts.map fun p => (p.1, { p.2 with cur := p.2.dflt })) := by
       simp only [KeysNodup, List.map_map]; exact hn
     exact notifyW_good _ (nestedAt_good st.listeners maxDepth) _ st.listeners _ hnew hk
+  | merge kvs =>
+    simp only [stepN, mergeN]
+    split
+    · exact ⟨h, hn, by simp⟩
+    · exact good_updateN st _ h hn
 
 private theorem good_runFromN (ops : List Op) : ∀ st : St, TypedStore st.opts → KeysNodup st.opts →
     TypedStore (runFromN st ops).1.opts ∧ ∀ ob ∈ (runFromN st ops).2, TypedStore ob.seen := by
@@ -1394,5 +1417,139 @@ theorem deferred_spec_is_parsed_when_declared (n : Name) (v : PyStr) (ty : Ty) (
 
 example : (stepN (stepN (stepN St.empty (.set [(7, some [32, 0x663, 95, 0x664])] true)).st (.addOption 7 .optInt (.a .none))).st
     .processDeferred).st.opts = [(7, ⟨.optInt, .a .none, .a (.i 34)⟩)] := by decide
+
+/-! ### config-file paths (`relative_path`) -/
+
+/-- an absolute script path is taken as it is (in pathlib's normal form), whatever the config file's directory,
+    the working directory and the environment are -/
+theorem relative_path_of_absolute (home : Option PyStr) (pw : PyStr → Option PyStr) (cwd rel path : PyStr)
+    (h : (parsePath path).root.isEmpty = false) :
+    relativePath home pw cwd rel path = .ok (parsePath path) := by
+  simp [relativePath, pExpandUser, pAbsolute, pjoin, h]
+
+/-- a relative script path without `~` is appended to the (absolute) directory of the config file -/
+theorem relative_path_of_plain (home : Option PyStr) (pw : PyStr → Option PyStr) (cwd rel path : PyStr)
+    (hp : (parsePath path).root.isEmpty = true) (ht : ∀ f ∈ (parsePath path).parts.head?, f.head? ≠ some 126)
+    (hr : (parsePath rel).root.isEmpty = false) :
+    relativePath home pw cwd rel path = .ok ⟨(parsePath rel).root, (parsePath rel).parts ++ (parsePath path).parts⟩ := by
+  have hex : pExpandUser home pw (parsePath path) = .ok (parsePath path) := by
+    unfold pExpandUser
+    simp only [hp, Bool.not_true, Bool.false_eq_true, if_false]
+    cases hparts : (parsePath path).parts with
+    | nil => rfl
+    | cons f t =>
+      have := ht f (by simp [hparts])
+      simp [this]
+  simp [relativePath, hex, pAbsolute, pjoin, hp, hr]
+
+private theorem pAbsolute_root (cwd : PyStr) (q : PPath) (hc : (parsePath cwd).root.isEmpty = false) :
+    (pAbsolute cwd q).root.isEmpty = false := by
+  unfold pAbsolute pjoin
+  by_cases hq : q.root.isEmpty = true
+  · simp [hq, hc]
+  · simp [hq]
+
+/-- **relative_path_is_absolute.** Whenever `relative_path` returns (no undeterminable home, no NUL user name) and
+    the working directory is absolute, the result is an absolute path — for every config directory, script path and
+    environment: the `scripts` entries `load` produces never depend on where the process is started later. -/
+theorem relative_path_is_absolute (home : Option PyStr) (pw : PyStr → Option PyStr) (cwd rel path : PyStr) (r : PPath)
+    (hc : (parsePath cwd).root.isEmpty = false) (h : relativePath home pw cwd rel path = .ok r) :
+    r.root.isEmpty = false := by
+  unfold relativePath at h
+  simp only at h
+  cases h1 : pExpandUser home pw (parsePath path) with
+  | error e => simp [h1] at h
+  | ok e1 =>
+    simp only [h1] at h
+    split at h
+    · cases h
+    · rename_i e2 _
+      simp only [Except.ok.injEq] at h
+      subst h
+      exact pAbsolute_root cwd _ hc
+
+example : (relativePath (some [47, 104]) (fun _ => none) [47, 119] [47, 101, 116, 99] [126, 47, 97]).toOption.map PPath.str =
+    some [47, 104, 47, 97] := by decide
+example : (match relativePath none (fun _ => none) [47, 119] [99] [126, 117, 47, 97] with
+    | .error e => some e | .ok _ => none) = some .runtime ∧
+    (relativePath none (fun _ => none) [47, 119] [99] [97, 47, 46, 47, 47, 98]).toOption.map PPath.str =
+      some [47, 119, 47, 99, 47, 97, 47, 98] := by decide
+
+/-! ### `merge`: Sequence values are appended -/
+
+private theorem mergeVals_spec (s : Store) (kvs toset : List (Name × Val)) (h : mergeVals s kvs = .ok toset) :
+    ∀ kv ∈ toset, (∃ v, (kv.1, v) ∈ kvs ∧ kv.2 = v ∧ (∀ xs, v ≠ .seq xs) ∧ v ≠ .a .none) ∨
+      (∃ xs o cur, (kv.1, Val.seq xs) ∈ kvs ∧ lookup s kv.1 = some o ∧ o.cur = .seq cur ∧ kv.2 = .seq (cur ++ xs)) := by
+  induction kvs generalizing toset with
+  | nil => intro kv hkv; simp only [mergeVals, Except.ok.injEq] at h; subst h; simp at hkv
+  | cons a r ih =>
+    obtain ⟨k, v⟩ := a
+    intro kv hkv
+    have lift : ∀ t, mergeVals s r = .ok t → kv ∈ t →
+        (∃ v', (kv.1, v') ∈ (k, v) :: r ∧ kv.2 = v' ∧ (∀ xs, v' ≠ .seq xs) ∧ v' ≠ .a .none) ∨
+        (∃ xs o cur, (kv.1, Val.seq xs) ∈ (k, v) :: r ∧ lookup s kv.1 = some o ∧ o.cur = .seq cur ∧ kv.2 = .seq (cur ++ xs)) := by
+      intro t ht hm
+      rcases ih t ht kv hm with ⟨v', h1, h2⟩ | ⟨xs, o, cur, h1, h2⟩
+      · exact Or.inl ⟨v', List.mem_cons_of_mem _ h1, h2⟩
+      · exact Or.inr ⟨xs, o, cur, List.mem_cons_of_mem _ h1, h2⟩
+    cases v with
+    | seq xs =>
+      simp only [mergeVals] at h
+      cases hl : lookup s k with
+      | none => simp [hl] at h
+      | some o =>
+        simp only [hl] at h
+        cases hc : o.cur with
+        | a x => simp [hc] at h
+        | seq cur =>
+          simp only [hc] at h
+          cases hr : mergeVals s r with
+          | error e => simp [hr, Except.map] at h
+          | ok t =>
+            simp only [hr, Except.map, Except.ok.injEq] at h
+            subst h
+            rcases List.mem_cons.mp hkv with e | e
+            · subst e; exact Or.inr ⟨xs, o, cur, List.mem_cons_self, hl, hc, rfl⟩
+            · exact lift t hr e
+    | a x =>
+      cases x with
+      | none => simp only [mergeVals] at h; exact lift toset h hkv
+      | b y | s y | i y =>
+        simp only [mergeVals] at h
+        cases hr : mergeVals s r with
+        | error e => simp [hr, Except.map] at h
+        | ok t =>
+          simp only [hr, Except.map, Except.ok.injEq] at h
+          subst h
+          rcases List.mem_cons.mp hkv with e | e
+          · subst e; exact Or.inl ⟨_, List.mem_cons_self, rfl, by intro xs; simp, by simp⟩
+          · exact lift t hr e
+      | other =>
+        simp only [mergeVals] at h
+        cases hr : mergeVals s r with
+        | error e => simp [hr, Except.map] at h
+        | ok t =>
+          simp only [hr, Except.map, Except.ok.injEq] at h
+          subst h
+          rcases List.mem_cons.mp hkv with e | e
+          · subst e; exact Or.inl ⟨_, List.mem_cons_self, rfl, by intro xs; simp, by simp⟩
+          · exact lift t hr e
+
+/-- **merge_appends_sequences.** What `merge` hands to `update`: every None is dropped, every scalar is passed as
+    given, and every list is the option's CURRENT list followed by the given one (a list for an option whose current
+    value is not a list is a TypeError, for an unknown option an AttributeError — nothing is updated then). -/
+theorem merge_appends_sequences (st : St) (kvs : List (Name × Val)) :
+    (∃ toset, mergeVals st.opts kvs = .ok toset ∧ mergeN st kvs = updateN st toset ∧
+      ∀ kv ∈ toset, (∃ v, (kv.1, v) ∈ kvs ∧ kv.2 = v ∧ (∀ xs, v ≠ .seq xs) ∧ v ≠ .a .none) ∨
+        (∃ xs o cur, (kv.1, Val.seq xs) ∈ kvs ∧ lookup st.opts kv.1 = some o ∧ o.cur = .seq cur ∧ kv.2 = .seq (cur ++ xs))) ∨
+    (∃ e, mergeVals st.opts kvs = .error e ∧ (mergeN st kvs).st = st ∧ (mergeN st kvs).obs = []) := by
+  cases h : mergeVals st.opts kvs with
+  | error e => exact Or.inr ⟨e, rfl, by simp [mergeN, h], by simp [mergeN, h]⟩
+  | ok toset => exact Or.inl ⟨toset, rfl, by simp [mergeN, h], mergeVals_spec st.opts kvs toset h⟩
+
+example :
+    let st : St := ⟨[(0, ⟨.seqStr, .seq [], .seq [.s [97]]⟩), (1, ⟨.int, .a (.i 0), .a (.i 0)⟩)], [], [], []⟩
+    (mergeN st [(0, .seq [.s [98]]), (1, .a .none)]).st.opts = [(0, ⟨.seqStr, .seq [], .seq [.s [97], .s [98]]⟩), (1, ⟨.int, .a (.i 0), .a (.i 0)⟩)] ∧
+    (mergeN st [(1, .seq [])]).out = .typeError ∧ (mergeN st [(5, .seq [])]).out = .attributeError := by decide
 
 end MitmVerif.Props.C44
